@@ -374,6 +374,58 @@ def show(cs: Sequence[T]) -> str:
 # ------------------------------------------------------------------------------------------
 
 
+def native_connected(ops: List[Any]) -> bool:
+    """documented meaning of graph-active-vertices-connected: [n, m] + n flags + 2m endpoints"""
+    n, m = ops[0], ops[1]
+    act = ops[2:2 + n]
+    ends = ops[2 + n:2 + n + 2 * m]
+    on = [i for i in range(n) if act[i]]
+    if not on:
+        return True
+    adj: Dict[int, List[int]] = {i: [] for i in range(n)}
+    for k in range(m):
+        a, b = ends[2 * k], ends[2 * k + 1]
+        adj[a].append(b)
+        adj[b].append(a)
+    seen = {on[0]}
+    st = [on[0]]
+    while st:
+        v = st.pop()
+        for u in adj[v]:
+            if act[u] and u not in seen:
+                seen.add(u)
+                st.append(u)
+    return len(seen) == len(on)
+
+
+def native_division(ops: List[Any]) -> bool:
+    """documented meaning of graph-division: [n, m] + n sizes (None = free) + 2m endpoints + m border flags:
+    cutting the border edges leaves connected blocks, every sized vertex lies in a block of that size,
+    and every border edge joins two different blocks"""
+    n, m = ops[0], ops[1]
+    sizes = ops[2:2 + n]
+    ends = ops[2 + n:2 + n + 2 * m]
+    borders = ops[2 + n + 2 * m:2 + n + 3 * m]
+    parent = list(range(n))
+
+    def find(x: int) -> int:
+        while parent[x] != x:
+            parent[x] = parent[parent[x]]
+            x = parent[x]
+        return x
+
+    for k in range(m):
+        if not borders[k]:
+            parent[find(ends[2 * k])] = find(ends[2 * k + 1])
+    for k in range(m):
+        if borders[k] and find(ends[2 * k]) == find(ends[2 * k + 1]):
+            return False
+    cnt: Dict[int, int] = {}
+    for i in range(n):
+        cnt[find(i)] = cnt.get(find(i), 0) + 1
+    return all(sizes[i] is None or sizes[i] == cnt[find(i)] for i in range(n))
+
+
 def projection(inst: Instance, user_ids: List[int], budget_s: float = 4.0) -> Optional[Set[Tuple[Any, ...]]]:
     """set of assignments of the caller's variables that extend to a satisfying assignment of all variables;
     None when the enumeration budget is exceeded"""
@@ -399,8 +451,16 @@ def projection(inst: Instance, user_ids: List[int], budget_s: float = 4.0) -> Op
 
     class Den:
         def denote(self, v: Any, val: Dict[Any, Any]) -> Any:
-            if isinstance(v, Obj) and isinstance(v.attrs.get("op"), Tag) and v.attrs["op"].name.endswith("VAR"):
-                return val[v.attrs["id"]]
+            if isinstance(v, Obj) and isinstance(v.attrs.get("op"), Tag):
+                nm = v.attrs["op"].name
+                if nm.endswith("VAR"):
+                    return val[v.attrs["id"]]
+                if nm.endswith("GRAPH_ACTIVE_VERTICES_CONNECTED"):
+                    ops = [self.denote(o, val) for o in v.attrs["operands"]]
+                    return native_connected(ops)
+                if nm.endswith("GRAPH_DIVISION"):
+                    ops = [None if o is None else self.denote(o, val) for o in v.attrs["operands"]]
+                    return native_division(ops)
             return em_den(self, v, val)  # type: ignore[arg-type]
 
     den = Den()
